@@ -76,6 +76,53 @@ def search_consistency(chk, sites, tol_exact=1e-7, tol_comp=1e-3):
         chk.search_case("loc_minus_delta_plus_int_sing", ok, what=f"{label}: loc(x) != delta - int_0^x sing ({(names[1] or '').split('.')[-1]})", data=data, sample=data if "c2nn2c" in (names[1] or "") else None, nontrivial=any_rsl.sing is not None)
 
 
+def search_mass_ratios(chk, sites):
+    """the same identity for the mass-dependent families over the whole range of Q2/m2 a run can
+    reach (the closures choose formulas by that ratio): loc(b) - loc(a) + int_a^b sing = 0 on three
+    intervals, relative to |loc(b) - loc(a)| + int |sing| (loc itself carries constants ~ m2/Q2)"""
+    import importlib
+
+    done = set()
+    for s in sites:
+        if s["fam"] not in ("heavy", "intrinsic", "asy") or s["status"] != "rsl" or "loc" not in s["parts"] or "sing" not in s["parts"]:
+            continue
+        key = (s["fam"], s["module"], s["cls"], s["order"])
+        if key in done:
+            continue
+        done.add(key)
+        cls = getattr(importlib.import_module(f"yadism.coefficient_functions.{s['fam']}.{s['module']}"), s["cls"])
+        label = "{}.{}.{}[{}]".format(*key)
+        worst, worst_at, n_eval = 0.0, None, 0
+        for ratio in (1e-3, 5e-3, 2e-2, 0.3, 15.0, 1e3):
+            m2 = 2.0
+            Q2 = ratio * m2
+            xb = min(0.1, 0.5 / (1.0 + m2 / Q2))  # keeps the slow-rescaling point below 1
+            try:
+                rsl = callsites.instantiate(s["fam"], s["module"], cls, s["nf"], x=xb, Q2=Q2, m2=m2)[s["order"]]()
+            except Exception as e:
+                chk.search_case("loc_vs_sing_over_mass_ratios", False, what=f"{label} at Q2/m2={ratio}: {type(e).__name__}: {e}"[:200], data=dict(site=label, ratio=ratio))
+                continue
+            if rsl is None or rsl.loc is None or rsl.sing is None:
+                continue
+            for a, b in ((0.05, 0.3), (0.3, 0.6), (0.6, 0.9)):
+                la, lb = float(rsl.loc(a, rsl.args["loc"])), float(rsl.loc(b, rsl.args["loc"]))
+                i_ = scipy.integrate.quad(lambda z: float(rsl.sing(z, rsl.args["sing"])), a, b, epsabs=1e-13, epsrel=1e-12, limit=300)[0]
+                ia = scipy.integrate.quad(lambda z: abs(float(rsl.sing(z, rsl.args["sing"]))), a, b, epsabs=1e-13, epsrel=1e-12, limit=300)[0]
+                n_eval += 1
+                sc = abs(lb - la) + ia
+                if sc == 0.0:
+                    continue
+                rel = abs(lb - la + i_) / sc
+                if rel > worst:
+                    worst, worst_at = rel, dict(ratio=ratio, interval=[a, b], loc_a=la, loc_b=lb, int_sing=i_)
+        if n_eval:
+            data = dict(site=label, worst_relative_residual=worst, at=worst_at)
+            # a_s^2 and a_s^3 pieces are built from the Vogt et al. parametrisations (5-6 digits)
+            tol = 1e-7 if s["order"] <= 1 else 1e-3
+            data["tolerance"] = tol
+            chk.search_case("loc_vs_sing_over_mass_ratios", worst <= tol, what=f"{label}: loc(b) - loc(a) != -int_a^b sing at Q2/m2 = {worst_at and worst_at['ratio']}", data=data, sample=data if worst_at and worst_at["ratio"] < 0.01 else None, nontrivial=True)
+
+
 def search_finite(chk, sites, r):
     """all parts return finite real scalars on (0,1) for every admissible nf"""
     seen = set()
@@ -124,11 +171,12 @@ def run(tier):
     common.lean_proof_step(chk, "YadismModel.Properties.C03", thorough=thorough)
     corr_kernels.run_kernels(chk, r, 25 if thorough else 3, report=rep)
     search_consistency(chk, sites)
+    search_mass_ratios(chk, sites)
     search_finite(chk, sites, r)
     chk.assumptions += [
         "closures (heavy CC h_q, intrinsic asymptotics, asy F2 NC non-singlet) and the triple pqq0_2 (log z, Li2) are outside the normaliser's fragment: for them the property is checked numerically on the real functions (loc(x) - loc(0) + int_0^x sing at 4 x values, nf = 3..6), not proved",
         "approximate pairs: Vogt et al. parametrisations carry 5-6 digits; the theorem bounds every coefficient of the residual by 1e-4 relative (distribution_residual gives the exact residual formula)",
         "decimal literals are taken as their exact decimal value (the double differs by at most 2^-53 relative)",
-        "mass-ratio dependent closures are instantiated at Q2/m2 = 15 in the search",
+        "mass-ratio dependent closures are instantiated at Q2/m2 = 15 in the nf-decomposed search and at six ratios from 1e-3 to 1e3 in loc_vs_sing_over_mass_ratios",
     ]
     return chk
